@@ -868,7 +868,8 @@ theorem subMulLoop_spec (W mult : Nat) (hm : mult < 2 ^ W) (as bs : List Nat) (c
       have hc1' : c1 + (M - c1) = M := by omega
       generalize M - c1 = k at *
       rw [hB] at hdm ⊢
-      nlinarith [e, hdm, hv', hc, hc1']
+      have h5 : (M + 1) * (c1 + k) = (M + 1) * M := by rw [hc1']
+      linarith [e, hdm, hv', hc, h5]
 
 /-- `sub_mul_word_same_len_in_place`: words − mult·rhs, borrow out -/
 theorem subMulWordSameLen_spec (W mult : Nat) (hm : mult < 2 ^ W) (ws rhs : List Nat)
@@ -885,5 +886,220 @@ theorem subMulWordSameLen_spec (W mult : Nat) (hm : mult < 2 ^ W) (ws rhs : List
     have : 2 ^ W - 1 - (subMulLoop W mult ws rhs (2 ^ W - 1)).2 = bout := by omega
     simp only [this]
     simpa using i2
+
+-- ------------------------------------------------------------------ Knuth D: one quotient word
+
+/-- correction step of `div_rem_highest_word`: given an estimate `qh` that is never too small
+    (`A < (qh+1)·b`) and too large by at most one (`qh·b ≤ A + b`), the subtract / add-back
+    sequence leaves the exact quotient word and remainder; the `debug_assert!`s hold. -/
+theorem correctStep_spec (W : Nat) (lhsTop qh : Nat) (lhsLo rhs : List Nat)
+    (hL : rhs.length ≤ lhsLo.length) (hlo : IsWords W lhsLo) (hr : IsWords W rhs)
+    (hqh : qh < 2 ^ W)
+    (hF1 : val W (lhsLo.drop (lhsLo.length - rhs.length)) + lhsTop * 2 ^ (W * rhs.length)
+        < (qh + 1) * val W rhs)
+    (hF2 : qh * val W rhs
+        ≤ val W (lhsLo.drop (lhsLo.length - rhs.length)) + lhsTop * 2 ^ (W * rhs.length) + val W rhs) :
+    ∃ q win', correctStep W lhsTop lhsLo rhs qh
+        = .ok (q, lhsLo.take (lhsLo.length - rhs.length) ++ win') ∧
+      q ≤ qh ∧ win'.length = rhs.length ∧ IsWords W win' ∧ val W win' < val W rhs ∧
+      q * val W rhs + val W win'
+        = val W (lhsLo.drop (lhsLo.length - rhs.length)) + lhsTop * 2 ^ (W * rhs.length) := by
+  have hwl : (lhsLo.drop (lhsLo.length - rhs.length)).length = rhs.length := by
+    simp only [List.length_drop]; omega
+  have hww : IsWords W (lhsLo.drop (lhsLo.length - rhs.length)) := hlo.drop _
+  have sm := subMulWordSameLen_spec W qh hqh _ rhs hwl hww hr
+  generalize hsm : subMulWordSameLen W (lhsLo.drop (lhsLo.length - rhs.length)) qh rhs = p at sm
+  obtain ⟨win1, borrow⟩ := p
+  simp only at sm
+  obtain ⟨m1, m2, m3⟩ := sm
+  rw [hwl] at m1 m2
+  have hw1lt : val W win1 < 2 ^ (W * rhs.length) := by
+    have := val_lt W win1 m3; rwa [m2] at this
+  have hblt : val W rhs < 2 ^ (W * rhs.length) := val_lt W rhs hr
+  generalize hwin : val W (lhsLo.drop (lhsLo.length - rhs.length)) = vwin at *
+  generalize hP : 2 ^ (W * rhs.length) = P at *
+  generalize hb : val W rhs = b at *
+  by_cases hcase : qh * b ≤ vwin + lhsTop * P
+  · -- estimate exact: borrow = lhs_top
+    have hbor : borrow = lhsTop := by
+      rcases Nat.lt_trichotomy borrow lhsTop with h | h | h
+      · exfalso
+        have : (borrow + 1) * P ≤ lhsTop * P := Nat.mul_le_mul_right _ h
+        nlinarith
+      · exact h
+      · exfalso
+        have : (lhsTop + 1) * P ≤ borrow * P := Nat.mul_le_mul_right _ h
+        nlinarith
+    subst hbor
+    refine ⟨qh, win1, ?_, Nat.le_refl _, m2, m3, by nlinarith, by linarith⟩
+    simp only [correctStep, hsm, Nat.lt_irrefl, if_false, ne_eq, not_true_eq_false]
+  · -- estimate one too large: borrow = lhs_top + 1, add back
+    have hcase' : vwin + lhsTop * P < qh * b := Nat.lt_of_not_le hcase
+    have hbor : borrow = lhsTop + 1 := by
+      rcases Nat.lt_trichotomy borrow (lhsTop + 1) with h | h | h
+      · exfalso
+        have : borrow * P ≤ lhsTop * P := Nat.mul_le_mul_right _ (by omega)
+        nlinarith
+      · exact h
+      · exfalso
+        have : (lhsTop + 2) * P ≤ borrow * P := Nat.mul_le_mul_right _ h
+        nlinarith
+    subst hbor
+    have ad := addSameLen_spec W win1 rhs 0 m3 hr m2 (by omega)
+    generalize had : addSameLen W win1 rhs 0 = p2 at ad
+    obtain ⟨win2, carry⟩ := p2
+    simp only at ad
+    obtain ⟨d1, d2, d3, d4⟩ := ad
+    rw [m2, hP, hb] at d1
+    have hw2lt : val W win2 < P := by
+      have := val_lt W win2 d3; rwa [d2, m2, hP] at this
+    have hqpos : 1 ≤ qh := by
+      rcases Nat.eq_zero_or_pos qh with h | h
+      · subst h; simp at hcase'
+      · exact h
+    have hcarry : carry = 1 := by
+      rcases Nat.lt_or_ge carry 1 with h | h
+      · exfalso
+        have : carry = 0 := by omega
+        subst this
+        nlinarith
+      · omega
+    subst hcarry
+    obtain ⟨q', rfl⟩ : ∃ q', qh = q' + 1 := ⟨qh - 1, by omega⟩
+    refine ⟨q', win2, ?_, by omega, by rw [d2, m2], d3, by nlinarith, by nlinarith⟩
+    simp only [correctStep, hsm, had, Nat.lt_add_one, if_true, Nat.add_sub_cancel, ne_eq,
+      not_true_eq_false, if_false, Nat.succ_ne_zero, Nat.add_one_ne_zero, one_ne_zero]
+
+theorem pow_two_mul_half (W : Nat) (hW : 1 ≤ W) : 2 ^ W = 2 * 2 ^ (W - 1) := by
+  rw [← Nat.pow_succ']; congr 1; omega
+
+/-- the estimate of `div_rem_highest_word` (3-by-2 quotient of the top words, or `B − 1`) is
+    never too small and too large by at most one -/
+theorem qEstimate_spec (W : Nat) (hW : 1 ≤ W) (lhsTop : Nat) (lhsLo rhs : List Nat)
+    (hn : 2 ≤ rhs.length) (hL : rhs.length ≤ lhsLo.length)
+    (htop : lhsTop < 2 ^ W) (hlo : IsWords W lhsLo) (hr : IsWords W rhs)
+    (hnorm : 2 ^ (W * rhs.length) ≤ 2 * val W rhs)
+    (hA : val W (lhsLo.drop (lhsLo.length - rhs.length)) + lhsTop * 2 ^ (W * rhs.length)
+        < val W rhs * 2 ^ W) :
+    ∃ qh, qEstimate W lhsTop lhsLo rhs (highestDword W rhs) = .ok qh ∧ qh < 2 ^ W ∧
+      val W (lhsLo.drop (lhsLo.length - rhs.length)) + lhsTop * 2 ^ (W * rhs.length)
+        < (qh + 1) * val W rhs ∧
+      qh * val W rhs
+        ≤ val W (lhsLo.drop (lhsLo.length - rhs.length)) + lhsTop * 2 ^ (W * rhs.length) + val W rhs := by
+  have hp : 0 < 2 ^ W := Nat.two_pow_pos W
+  -- decompose rhs and the window
+  obtain ⟨rlo, r0, r1, hrs, hg0, hg1, hrl⟩ := split_last2_getD rhs hn
+  obtain ⟨llo, l2, l1, hls, hh0, hh1, hll⟩ := split_last2_getD lhsLo (by omega)
+  have hr0 : r0 < 2 ^ W := hr r0 (by rw [hrs]; simp)
+  have hr1 : r1 < 2 ^ W := hr r1 (by rw [hrs]; simp)
+  have hl2 : l2 < 2 ^ W := hlo l2 (by rw [hls]; simp)
+  have hl1 : l1 < 2 ^ W := hlo l1 (by rw [hls]; simp)
+  have hrlo : IsWords W rlo := fun x hx => hr x (by rw [hrs]; simp [hx])
+  have hllo : IsWords W llo := fun x hx => hlo x (by rw [hls]; simp [hx])
+  have hwin : lhsLo.drop (lhsLo.length - rhs.length)
+      = llo.drop (lhsLo.length - rhs.length) ++ [l2, l1] := by
+    conv => lhs; rw [hls]
+    exact List.drop_append_of_le_length (by omega)
+  have hwlo : IsWords W (llo.drop (lhsLo.length - rhs.length)) := hllo.drop _
+  have hwlen : (llo.drop (lhsLo.length - rhs.length)).length = rhs.length - 2 := by
+    simp only [List.length_drop]; omega
+  have hvb : val W rhs = val W rlo + 2 ^ (W * (rhs.length - 2)) * (r0 + 2 ^ W * r1) := by
+    conv => lhs; rw [hrs]
+    rw [val_append_two, hrl]
+  have hvw : val W (lhsLo.drop (lhsLo.length - rhs.length))
+      = val W (llo.drop (lhsLo.length - rhs.length)) + 2 ^ (W * (rhs.length - 2)) * (l2 + 2 ^ W * l1) := by
+    rw [hwin, val_append_two, hwlen]
+  have hrlolt : val W rlo < 2 ^ (W * (rhs.length - 2)) := by
+    have := val_lt W rlo hrlo; rwa [hrl] at this
+  have hwlolt : val W (llo.drop (lhsLo.length - rhs.length)) < 2 ^ (W * (rhs.length - 2)) := by
+    have := val_lt W _ hwlo; rwa [hwlen] at this
+  have hPn : 2 ^ (W * rhs.length) = 2 ^ (W * (rhs.length - 2)) * 2 ^ W * 2 ^ W := by
+    rw [← Nat.pow_add, ← Nat.pow_add]; congr 1
+    have : rhs.length = rhs.length - 2 + 2 := by omega
+    conv => lhs; rw [this]
+    ring
+  have hdt : highestDword W rhs = r0 + 2 ^ W * r1 := by simp only [highestDword, hg0, hg1]
+  have hhd : highestDword W lhsLo = l2 + 2 ^ W * l1 := by simp only [highestDword, hh0, hh1]
+  have hhdm : (l2 + 2 ^ W * l1) % 2 ^ W = l2 := by
+    rw [Nat.add_mul_mod_self_left]; exact Nat.mod_eq_of_lt hl2
+  have hhdd : (l2 + 2 ^ W * l1) / 2 ^ W = l1 := add_mul_div_word W l2 l1 hl2
+  have hhalf := pow_two_mul_half W hW
+  generalize hvwlo : val W (llo.drop (lhsLo.length - rhs.length)) = vwlo at *
+  generalize hvrlo : val W rlo = vrlo at *
+  generalize hP2 : 2 ^ (W * (rhs.length - 2)) = P2 at *
+  have hP2pos : 0 < P2 := by rw [← hP2]; exact Nat.two_pow_pos _
+  -- normalisation: top word of rhs has its top bit set
+  have hr1n : 2 ^ W ≤ 2 * r1 + 1 := by
+    by_contra hcon
+    have hlt : 2 * r1 + 2 ≤ 2 ^ W := by omega
+    rw [hvb, hPn] at hnorm
+    have h1 : P2 * 2 ^ W * (2 * r1 + 2) ≤ P2 * 2 ^ W * 2 ^ W := Nat.mul_le_mul_left _ hlt
+    have h2 : P2 * (r0 + 1) ≤ P2 * 2 ^ W := Nat.mul_le_mul_left _ hr0
+    nlinarith
+  have hr1n' : 2 ^ W ≤ 2 * r1 := by omega
+  simp only [qEstimate, hg1, hhd, hhdm, hhdd, hdt]
+  rw [hvw, hvb, hPn]
+  rw [hvw, hvb, hPn] at hA
+  by_cases hc : lhsTop < r1
+  · -- 3-by-2 estimate
+    have hpre : l1 + 2 ^ W * lhsTop < r0 + 2 ^ W * r1 := by
+      have : 2 ^ W * (lhsTop + 1) ≤ 2 ^ W * r1 := Nat.mul_le_mul_left _ hc
+      nlinarith
+    have hdpos : 0 < r0 + 2 ^ W * r1 := by omega
+    have hdm := Nat.div_add_mod (l2 + 2 ^ W * (l1 + 2 ^ W * lhsTop)) (r0 + 2 ^ W * r1)
+    have hml := Nat.mod_lt (l2 + 2 ^ W * (l1 + 2 ^ W * lhsTop)) hdpos
+    have hqlt : (l2 + 2 ^ W * (l1 + 2 ^ W * lhsTop)) / (r0 + 2 ^ W * r1) < 2 ^ W := by
+      rw [Nat.div_lt_iff_lt_mul hdpos]
+      have : 2 ^ W * (l1 + 2 ^ W * lhsTop + 1) ≤ 2 ^ W * (r0 + 2 ^ W * r1) := Nat.mul_le_mul_left _ hpre
+      nlinarith
+    refine ⟨_, ?_, hqlt, ?_, ?_⟩
+    · simp only [hc, if_true, bind, Except.bind, div3by2_ok W _ _ _ hpre, pure, Except.pure]
+    · generalize (l2 + 2 ^ W * (l1 + 2 ^ W * lhsTop)) / (r0 + 2 ^ W * r1) = q at *
+      generalize (l2 + 2 ^ W * (l1 + 2 ^ W * lhsTop)) % (r0 + 2 ^ W * r1) = rr at *
+      generalize 2 ^ W = B at *
+      have h1 : P2 * (B * (l1 + B * lhsTop) + l2 + 1) ≤ P2 * ((r0 + B * r1) * (q + 1)) :=
+        Nat.mul_le_mul_left _ (by nlinarith)
+      nlinarith
+    · generalize (l2 + 2 ^ W * (l1 + 2 ^ W * lhsTop)) / (r0 + 2 ^ W * r1) = q at *
+      generalize (l2 + 2 ^ W * (l1 + 2 ^ W * lhsTop)) % (r0 + 2 ^ W * r1) = rr at *
+      generalize 2 ^ W = B at *
+      have h1 : P2 * ((r0 + B * r1) * q) ≤ P2 * (l2 + B * (l1 + B * lhsTop)) :=
+        Nat.mul_le_mul_left _ (by omega)
+      have h2 : q * vrlo ≤ B * P2 := Nat.mul_le_mul (by omega) (by omega)
+      have h3 : P2 * B ≤ P2 * (r0 + B * r1) := Nat.mul_le_mul_left _ (by nlinarith)
+      nlinarith
+  · -- estimate B − 1
+    have hc' : r1 ≤ lhsTop := Nat.le_of_not_lt hc
+    refine ⟨2 ^ W - 1, ?_, by omega, ?_, ?_⟩
+    · simp only [hc, if_false, pure, Except.pure]
+    · have : 2 ^ W - 1 + 1 = 2 ^ W := by omega
+      rw [this, Nat.mul_comm (2 ^ W)]; exact hA
+    · generalize hM : 2 ^ W - 1 = M at *
+      have hB : 2 ^ W = M + 1 := by omega
+      rw [hB] at hr0 hr1 hr1n' hl2 hl1 hA ⊢
+      clear hhdm hhdd hhalf hPn hr1n hhd hdt hvw hvb
+      have h1 : P2 * (M + 1) * (M + 1) * r1 ≤ P2 * (M + 1) * (M + 1) * lhsTop := Nat.mul_le_mul_left _ hc'
+      have h2 : M * vrlo ≤ M * P2 := Nat.mul_le_mul_left _ (by omega)
+      have h3 : M * (P2 * r0) ≤ M * (P2 * M) := Nat.mul_le_mul_left _ (Nat.mul_le_mul_left _ (by omega))
+      have h4 : P2 * (M + 1) * (M + 1) ≤ P2 * (M + 1) * (2 * r1) := Nat.mul_le_mul_left _ hr1n'
+      nlinarith
+
+/-- `div_rem_highest_word`: one exact quotient word of the (n+1)-word window by the normalised
+    divisor, remainder in the window -/
+theorem divRemHighestWord_spec (W : Nat) (hW : 1 ≤ W) (lhsTop : Nat) (lhsLo rhs : List Nat)
+    (hn : 2 ≤ rhs.length) (hL : rhs.length ≤ lhsLo.length)
+    (htop : lhsTop < 2 ^ W) (hlo : IsWords W lhsLo) (hr : IsWords W rhs)
+    (hnorm : 2 ^ (W * rhs.length) ≤ 2 * val W rhs)
+    (hA : val W (lhsLo.drop (lhsLo.length - rhs.length)) + lhsTop * 2 ^ (W * rhs.length)
+        < val W rhs * 2 ^ W) :
+    ∃ q win', divRemHighestWord W lhsTop lhsLo rhs (highestDword W rhs)
+        = .ok (q, lhsLo.take (lhsLo.length - rhs.length) ++ win') ∧
+      q < 2 ^ W ∧ win'.length = rhs.length ∧ IsWords W win' ∧ val W win' < val W rhs ∧
+      q * val W rhs + val W win'
+        = val W (lhsLo.drop (lhsLo.length - rhs.length)) + lhsTop * 2 ^ (W * rhs.length) := by
+  obtain ⟨qh, e, hq, f1, f2⟩ := qEstimate_spec W hW lhsTop lhsLo rhs hn hL htop hlo hr hnorm hA
+  obtain ⟨q, win', e2, hle, r1, r2, r3, r4⟩ := correctStep_spec W lhsTop qh lhsLo rhs hL hlo hr hq f1 f2
+  refine ⟨q, win', ?_, by omega, r1, r2, r3, r4⟩
+  simp only [divRemHighestWord, e, bind, Except.bind, e2]
 
 end Dashu.Model.Div
